@@ -20,6 +20,7 @@ class Scope:
         self.loops = []  # enclosing `for` loops of this scope that may use `loop`: dicts {"has_len":bool}
         self.in_loop = 0
         self.in_try = 0
+        self.no_return = False  # known finding C05-early-return-drops-buffered-content: excluded by construction
         self.defs = dict(parent.defs) if parent is not None else {}
         self.has_caller = None  # None | dict describing what caller offers
 
@@ -97,7 +98,7 @@ class G:
                     attrs += ["loop.parent.parent.index"]
             return self.pick(attrs)
         if kind in ("call", "capture"):
-            name = self.pick(sorted(n for n, d in sc.defs.items() if not d.get("wants_caller")) or [None])
+            name = self.pick(sorted(n for n, d in sc.defs.items() if not d.get("wants_caller") or d.get("caller_optional")) or [None])
             if name is None:
                 return self.pick(opts)
             call = self.callargs(sc, sc.defs[name], depth)
@@ -183,7 +184,7 @@ class G:
         return self.n
 
     # ---- bodies -------------------------------------------------------
-    def body(self, sc, depth, minlen=0, maxlen=4, allow_empty=True):
+    def body(self, sc, depth, minlen=0, maxlen=4, allow_empty=True, direct=False):
         n = self.int(minlen, maxlen)
         if n == 0 and allow_empty and self.chance(50):
             # empty or comment-only body
@@ -191,11 +192,11 @@ class G:
         out = []
         mark = len(sc.vars)
         for _ in range(max(n, 1 if not allow_empty else n)):
-            out.append(self.node(sc, depth))
+            out.append(self.node(sc, depth, direct=direct))
         del sc.vars[mark:]  # names bound inside a body may be unbound after it
         return out
 
-    def node(self, sc, depth):
+    def node(self, sc, depth, direct=False):
         kinds = [(5, "text"), (5, "expr"), (2, "marker")]
         deep = depth < self.max_depth
         if "control" in self.f and deep:
@@ -218,11 +219,11 @@ class G:
             kinds.append((1, "breakif"))
         if sc.in_try and "raise" in self.f:
             kinds.append((2, "boomif"))
-        if "return" in self.f and depth >= 1 and self.chance(30):
+        if "return" in self.f and depth >= 1 and not sc.no_return and self.chance(30):
             kinds.append((1, "returnif"))
         if sc.has_caller and self.chance(60):
             kinds.append((5, "callerbody"))
-        if "nested_def" in self.f and deep and sc.kind in ("def",) and not sc.in_loop:
+        if "nested_def" in self.f and deep and sc.kind in ("def",) and direct:
             kinds.append((1, "nested_def"))
         kind = self.pick([k for n, k in kinds for _ in range(n)])
         ind = self.pick(INDENTS)
@@ -297,6 +298,7 @@ class G:
             bsc = Scope("block", sc)
             bsc.defs = dict(sc.defs)
             filt = [self.pick(["fa", "fb", "up"])] if "flags" in self.f and self.chance(40) else []
+            bsc.no_return = bool(filt)
             return {"t": "block", "name": None, "body": self.body(bsc, depth + 1, minlen=1), "filter": filt}
         if kind == "texttag":
             filt = [self.pick(["fa", "fb", "up"])] if "flags" in self.f and self.chance(50) else []
@@ -373,8 +375,9 @@ class G:
             return {"t": "py", "code": ["context.write(%s)" % self.pick(["'W'", "str(cn)", "cs"])], "margin": margin, "oneline": one}
         if form == "multi":
             v = self.uid("v")
+            c = self.cond(sc)
             sc.vars.append((v, "str"))
-            return {"t": "py", "code": ["if %s:" % self.cond(sc), "    %s = 'a'" % v, "", "else:", "    %s = 'b'  # c" % v,
+            return {"t": "py", "code": ["if %s:" % c.replace("\\\n", " "), "    %s = 'a'" % v, "", "else:", "    %s = 'b'  # c" % v,
                                         "context.write('[' + %s + ']')" % v], "margin": margin}
         if form == "forpy":
             return {"t": "py", "code": ["for _i in range(2):", "    context.write('z%d' % _i)"], "margin": margin}
@@ -411,6 +414,7 @@ class G:
             flags["filter"] = [self.pick(["fa", "fb", "up"]) for _ in range(self.int(1, 2))] if self.chance(30) else []
         if "decorator" in self.f and self.chance(25):
             flags["decorator"] = self.pick(["deco", "deco2"])
+        dsc.no_return = bool(flags.get("buffered") or flags.get("filter"))
         if wants_caller is None:
             wants_caller = "ccall" in self.f and self.chance(50) and not flags.get("decorator")
         if wants_caller:
@@ -421,10 +425,23 @@ class G:
                                         "kwonly": [], "kwargs": False}
             dsc.has_caller = {"body_args": bargs, "defs": cdefs}
             info["wants_caller"] = dict(dsc.has_caller)
-        body = self.body(dsc, depth + 1, minlen=1, allow_empty=False)
-        if wants_caller and not _mentions(body, "caller."):
-            args = ", ".join("%s=%s" % (a, self.simple_arg(dsc)) for a in dsc.has_caller["body_args"])
-            body.append({"t": "expr", "e": "caller.body(%s)" % args})
+        optional = bool(wants_caller) and self.chance(40)
+        if optional:
+            # the def works with and without content: every use of `caller` is guarded by `% if caller:`
+            hc = dsc.has_caller
+            inner = self.body(dsc, depth + 2, minlen=1, allow_empty=False)
+            if not _mentions(inner, "caller."):
+                args = ", ".join("%s=%s" % (a, self.simple_arg(dsc)) for a in hc["body_args"])
+                inner.append({"t": "expr", "e": "caller.body(%s)" % args})
+            dsc.has_caller = None
+            body = [{"t": "if", "arms": [["caller", inner]], "else": [{"t": "text", "s": "(nc)"}], "ind": "", "sp": " "}]
+            body += self.body(dsc, depth + 1, minlen=0, maxlen=2, direct=True)
+            info["caller_optional"] = True
+        else:
+            body = self.body(dsc, depth + 1, minlen=1, allow_empty=False, direct=True)
+            if wants_caller and not _mentions(body, "caller."):
+                args = ", ".join("%s=%s" % (a, self.simple_arg(dsc)) for a in dsc.has_caller["body_args"])
+                body.append({"t": "expr", "e": "caller.body(%s)" % args})
         info.update(flags)
         node = {"t": "def", "name": name, "sig": ", ".join(parts), "body": body}
         node.update(flags)
